@@ -66,16 +66,10 @@ def has_falsy_keyword(node):
 
 def numbered_titles(doc):
     out = []
-    stack = [doc]
-    while stack:
-        node = stack.pop()
-        if isinstance(node, dict):
-            title = node.get("title")
-            if isinstance(title, str) and NUMBERED.search(title):
-                out.append(title)
-            stack.extend(v for k, v in node.items() if k not in ("const", "enum", "default"))
-        elif isinstance(node, list):
-            stack.extend(node)
+    for node in refmodel.walk_schemas(doc):
+        title = node.get("title")
+        if isinstance(title, str) and NUMBERED.search(title):
+            out.append(title)
     return out
 
 
